@@ -313,3 +313,52 @@ M("g1-reorder-checks", "C16", "quiet", "src/register_circuit.rs",
                     if !register_set[x] {
                         return Err(CircuitError::InvalidRegAccess(i, x));
                     }""", "behaviour-preserving for acceptance: checks reordered")
+
+# ---------------------------------------------------------------- C12
+REVERT("revert-invalid-literal-first", "C12", "fire K1", "21d964e", "pre-fix tree: mistyped usize constant panics before InvalidLiteralType is reported")
+REVERT("revert-max-identity", "C12", "fire K5", "96af733", "pre-fix tree: signed max() starts at 0")
+REVERT("revert-constdefs-order", "C12", "fire K4", "b61eb1a", "pre-fix tree: const defs bound in HashMap order")
+M("k2-return-in-loop", "C12", "fire K2", "src/compile.rs",
+  """                let Some(literal) = party_deps.get(c) else {
+                    errs.push(CompilerError::MissingConstant(
+                        party.clone(),
+                        c.clone(),
+                        *meta,
+                    ));
+                    continue;
+                };
+                let identifier = format!("{party}::{c}");
+                match literal {""",
+  """                let Some(literal) = party_deps.get(c) else {
+                    errs.push(CompilerError::MissingConstant(
+                        party.clone(),
+                        c.clone(),
+                        *meta,
+                    ));
+                    return Err(errs);
+                };
+                let identifier = format!("{party}::{c}");
+                match literal {""", "only the first missing constant is reported")
+M("k2-unsorted", "C12", "fire K2", "src/compile.rs",
+  """        if !errs.is_empty() {
+            errs.sort();
+            return Err(errs);
+        }
+        let mut sorted_const_defs""",
+  """        if !errs.is_empty() {
+            return Err(errs);
+        }
+        let mut sorted_const_defs""", "errors returned in hash order")
+M("k3-trapping-add", "C12", "fire K3", "src/compile.rs",
+  """                    $fn_ident(lhs, consts_unsigned).wrapping_add($fn_ident(rhs, consts_unsigned))""",
+  """                    $fn_ident(lhs, consts_unsigned) + $fn_ident(rhs, consts_unsigned)""", "const addition traps on overflow")
+M("k5-min-identity", "C12", "fire K5", "src/compile.rs",
+  """                    let mut result = <$const_ty>::MAX;""",
+  """                    let mut result = i64::MAX as $const_ty;""", "min() over unsigned constants ignores values above i64::MAX")
+M("k1-use-before-test", "C12", "fire K1", "src/compile.rs",
+  """        if !errs.is_empty() {
+            errs.sort();
+            return Err(errs);
+        }
+        let mut sorted_const_defs: Vec<_> = self.const_defs.iter().collect();""",
+  """        let mut sorted_const_defs: Vec<_> = self.const_defs.iter().collect();""", "constants are used although errors were collected (never returned)")
